@@ -17,7 +17,8 @@ from fractions import Fraction
 from harness.core import quiet, q, qv, qm, pv, close, vclose
 
 WALLVAL = {"nan": float("nan"), "inf": float("inf"), "-inf": float("-inf")}
-PATTERNS = ["SCS", "SRS", "CS", "RS", "SSCS", "SCSCS", "SRSCS", "SCRS", "SSRS", "SCSS"]
+PATTERNS = ["SCS", "SRS", "CS", "RS", "SSCS", "SCSCS", "SRSCS", "SCRS", "SSRS", "SCSS",
+            "STS", "SSTS", "STSTS", "TS", "SCTS", "STSRS", "STS", "SSTSS"]   # T = target replaced, then restart (HybridGibbs per-sweep pattern)
 
 
 def history_stream(ctx, cuqi, rng, n):
@@ -27,15 +28,21 @@ def history_stream(ctx, cuqi, rng, n):
     for i in range(n):
         pat = rng.choice(PATTERNS)
         # after reinitialize() the depth bound is 15: only well-conditioned targets with a moderate step size there (U-turn within ~2^6 leaves)
-        c = gen_tight(rng, False) if (i % 4 == 3 and "R" not in pat) else gen_case(rng, False)
+        c = gen_tight(rng, False) if (i % 4 == 3 and "R" not in pat and "T" not in pat) else gen_case(rng, False)
         c["int_x0"] = False; c["md"] = min(c["md"], 4)
         nu = 3 * (2 ** (c["md"] + 1)) + 8
-        if "R" in pat:          # reinitialize() resets max_depth to the default 15 (see Model/C08_history.lean): keep trajectories short
+        if "R" in pat or "T" in pat:          # reinitialize() resets max_depth to the default 15 (see Model/C08_history.lean): keep trajectories short
             c["eps"] = max(c["eps"], 1 / 4); nu = 800
         ops = []
         for ch in pat:
             if ch == "S":
                 ops.append(("S", [rng.randint(-12, 12) / 8 for _ in range(c["d"])], rng.randint(1, 40) / 16, [rng.randint(1, 1023) / 1024 for _ in range(nu)]))
+            elif ch == "T":
+                # a NEW quadratic target of the same dimension (no wall), then `initial_point = current_point` (75 %) and reinitialize()
+                c2 = gen_case(rng, False)
+                while c2["d"] != c["d"]:
+                    c2 = gen_case(rng, False)
+                ops.append(("T", c2["P"], c2["b"], 1 if rng.random() < 0.75 else 0))
             else:
                 ops.append((ch, rng.choice(["state", "file", "self"]) if ch == "C" else None, rng.choice([0.75, -1.5, 2.0]), rng.choice([0.5, 2.0, 0.25])))
         c["ops"] = ops; c["pattern"] = pat
@@ -43,6 +50,8 @@ def history_stream(ctx, cuqi, rng, n):
         for op in ops:
             if op[0] == "S":
                 toks.append("S %s %s %s" % (qv(op[1]), q(op[2]), qv(op[3])))
+            elif op[0] == "T":
+                toks.append("T %s %s none %d" % (qm(op[1]), qv(op[2]), op[3]))
             elif op[0] == "C" and op[1] != "self":
                 toks.append("CO %s %s" % (qv([v + op[2] for v in c["x"]]), q(c["eps"] * op[3])))
             else:
@@ -51,7 +60,7 @@ def history_stream(ctx, cuqi, rng, n):
                      "none" if c["wall"] is None else q(c["wall"]) + ":" + c.get("wall_kind", "nan"), qv(c["x"]), " ".join(toks)))
         jobs.append(c)
     outs = ctx.lean.drive(lines)
-    hist = {"histories": 0, "ops": {"S": 0, "R": 0, "C": 0}, "roundtrip_kind": {"state": 0, "file": 0, "self": 0}, "patterns": {},
+    hist = {"histories": 0, "ops": {"S": 0, "R": 0, "C": 0, "T": 0}, "retarget_restart_here": 0, "roundtrip_kind": {"state": 0, "file": 0, "self": 0}, "patterns": {},
             "transitions_compared": 0, "accepted": 0, "skipped_margin": 0}
     tmpdir = tempfile.mkdtemp(prefix="c08hist")
     for c, mo in zip(jobs, outs):
@@ -87,6 +96,13 @@ def history_stream(ctx, cuqi, rng, n):
                         with scripted(sc):
                             s.sample(1)
                     elif op[0] == "R":
+                        s.reinitialize()
+                    elif op[0] == "T":
+                        target, calls = make_target(cuqi, op[1], op[2], None)
+                        s.target = target
+                        if op[3]:
+                            s.initial_point = s.current_point      # the very same object, as HybridGibbs does
+                            hist["retarget_restart_here"] += 1
                         s.reinitialize()
                     else:
                         hist["roundtrip_kind"][op[1]] += 1
@@ -150,7 +166,7 @@ def history_stream(ctx, cuqi, rng, n):
                                      "the step size and the draws")
                     except Exception:
                         pass
-                elif not bad and op[0] == "R":
+                elif not bad and op[0] in ("R", "T"):
                     home = np.asarray(s.initial_point, float).ravel()
                     if not vclose(xs, home, 0):
                         ctx.fail(key, d2, home.tolist(), xs.tolist(), "reinitialize() does not return to the object's initial point")
